@@ -33,7 +33,7 @@ Step ==
         IN
         /\ \A j \in 1..Len(e.res) :
              LET r == e.res[j]
-                 api == IF r.api = "Do" THEN "Do" ELSE "DoInto" IN
+                 api == IF r.api = "Do" THEN "Do" ELSE IF r.api = "DoInto" THEN "DoInto" ELSE "DoInto/prefix" IN
              IF exp.st \in {"unspec", "null"} THEN TRUE
              ELSE IF exp.st = "ok" THEN
                   LET dec == IF r.st = "ok" THEN DecAll(desc.from.t, r.out) ELSE Bad IN
